@@ -845,6 +845,13 @@ class Flattener:
                 return node
 
             def _assign(self, node, target, value):
+                # a, b, c = (f(x) for x in t) with t of known length: unpacking consumes the generator completely before
+                # any target is bound, exactly like a tuple of the elements
+                if isinstance(target, (ast.Tuple, ast.List)) and isinstance(value, (ast.GeneratorExp, ast.ListComp)):
+                    el = fl.seq_elements(self.fn, value)
+                    if el is not None and len(el) == len(target.elts) and not any(isinstance(x, ast.Starred) for x in target.elts):
+                        tg2 = self.visit(target)
+                        return [ast.copy_location(ast.Assign(targets=[tg2], value=ast.Tuple(elts=[self.visit(x) for x in el], ctx=ast.Load())), node)]
                 # unpacking of a split variable
                 if isinstance(target, (ast.Tuple, ast.List)) and isinstance(value, ast.Name) and self._shape(value.id) is not None:
                     sh = self._shape(value.id)
